@@ -69,10 +69,10 @@ Qed.
 (* ------------------------------------------------------------------ *)
 (* a full Sync restores the mirror                                     *)
 
-Lemma cl_sync_ok : forall c t q, t <> [] -> length t = length (cl_t c) ->
-  cl_sync c t q = mk_client t q 0 (cl_stuck c) false (cl_errs c).
+Lemma cl_sync_ok : forall c t q m, t <> [] -> length t = length (cl_t c) ->
+  cl_sync c t q m = mk_client t q m (cl_stuck c) false (cl_errs c).
 Proof.
-  intros c t q Ht Hl. unfold cl_sync. destruct t as [|a r]; [congruence|].
+  intros c t q m Ht Hl. unfold cl_sync. destruct t as [|a r]; [congruence|].
   now rewrite (proj2 (Nat.eqb_eq _ _) Hl).
 Qed.
 
@@ -83,7 +83,8 @@ Lemma full_sync_restores_lemma : forall p s,
   s_time (st_cur s) <> [] ->
   length (s_time (st_cur s)) = length (cl_t (st_cl s)) ->
   let s' := exec p s [SyncReq; Settle] in
-  client_view s' = (s_time (st_cur s), s_q (st_cur s), 0) /\
+  client_view s' = (s_time (st_cur s), s_q (st_cur s),
+                    if p_sync_m p then s_m (st_cur s) else 0) /\
   st_wire s' = [] /\ cl_need (st_cl s') = false /\ cl_stuck (st_cl s') = false /\
   st_err s' = false /\ st_sv s' = st_sv s.
 Proof.
@@ -121,7 +122,7 @@ Proof.
 Qed.
 
 Definition all4 : cfg := {| sync_schema := true; shallow := false; tracked := [0;1;2;3]%nat |}.
-Definition plain : pcfg := {| p_codec := all4; p_mut := false |}.
+Definition plain : pcfg := {| p_codec := all4; p_mut := false; p_hello_m := false; p_sync_m := false |}.
 Definition sn (t : list N) (q m : N) : snap := {| s_time := t; s_q := q; s_m := m |}.
 
 (* (R1) a reply overtaken by a push *)
@@ -195,7 +196,7 @@ Qed.
 
 (* (R4) per-mutation sync: a rejected mutations push calls Sync() from the
    blocking read loop: the client is stuck, in-order delivery *)
-Definition mutp : pcfg := {| p_codec := all4; p_mut := true |}.
+Definition mutp : pcfg := {| p_codec := all4; p_mut := true; p_hello_m := false; p_sync_m := false |}.
 
 Theorem mutations_push_blocks_refuted_lemma :
   exists (p : pcfg) (s0 a : snap),
@@ -240,7 +241,7 @@ Qed.
    unfiltered time, the client's checksum then covers untracked states and
    every later push is rejected *)
 Definition part4 : cfg := {| sync_schema := true; shallow := false; tracked := [0;1]%nat |}.
-Definition partp : pcfg := {| p_codec := part4; p_mut := false |}.
+Definition partp : pcfg := {| p_codec := part4; p_mut := false; p_hello_m := false; p_sync_m := false |}.
 Definition r6_a := sn [1;0;1;0] 3 0.
 Definition r6_b := sn [1;1;1;0] 4 0.
 
@@ -263,25 +264,23 @@ Proof.
   - intros n. apply repeat_fix. vm_compute. reflexivity.
 Qed.
 
-(* (R7) reconnect on a source whose MachineTick is not 0: RemoteHello keeps
-   the machTick of the old lastPushData, the client restarts from 0 *)
+(* (R7) a source whose MachineTick is not 0 (it was imported): RemoteHello
+   memorises the tick, the client's HandshakeDone starts from 0: every diff
+   carries MachTick 0 and fails the checksum, from the first push on *)
 Definition r7_s0 := sn [0;0;0;0] 1 1.
 Definition r7_a := sn [1;0;0;0] 2 1.
-Definition r7_b := sn [1;1;0;0] 3 1.
 
-Theorem reconnect_machtick_refuted_lemma :
-  exists (p : pcfg) (s0 a b : snap),
-    p_mut p = false /\ shallow (p_codec p) = false /\
+Theorem hello_machtick_refuted_lemma :
+  exists (p : pcfg) (s0 a : snap),
+    p_mut p = false /\ shallow (p_codec p) = false /\ p_hello_m p = false /\
     cfg_wf (p_codec p) (length (s_time s0)) = true /\
-    chain_in_range s0 [a; b] = true /\ s_m s0 = 1 /\
-    let st1 := exec p (init p s0) [Src a; Push; Settle] in
-    let st := exec p st1 [Hello; Src b; Push; Settle] in
-    mirror_ok (p_codec p) (s_time a) (cl_t (st_cl st1)) = true /\
+    chain_in_range s0 [a] = true /\ s_m s0 = 1 /\
+    let st := exec p (init p s0) [Src a; Push; Settle] in
     quiescent st = true /\ st_err st = false /\ st_rejpush st = true /\
-    mirror_ok (p_codec p) (s_time b) (cl_t (st_cl st)) = false /\
+    mirror_ok (p_codec p) (s_time a) (cl_t (st_cl st)) = false /\
     forall n, exec p st (concat (repeat [Push; Settle] n)) = st.
 Proof.
-  exists plain, r7_s0, r7_a, r7_b.
+  exists plain, r7_s0, r7_a.
   repeat split; try (vm_compute; reflexivity).
   intros n. apply repeat_fix. vm_compute. reflexivity.
 Qed.
@@ -290,7 +289,7 @@ Qed.
    the push path ignores it *)
 Definition shp : pcfg :=
   {| p_codec := {| sync_schema := true; shallow := true; tracked := [0;1;2;3]%nat |};
-     p_mut := false |}.
+     p_mut := false; p_hello_m := false; p_sync_m := false |}.
 
 Theorem shallow_push_stale_refuted_lemma :
   exists (p : pcfg) (s0 a : snap),
